@@ -126,6 +126,10 @@ PyMathTable ==
   \cup {PM("pow", <<b, k>>, IPow(b, k)) : b \in {2, 3, 5}, k \in 0..3}
   \cup {PM("log2", <<IPow(2, k)>>, k) : k \in 0..5} \cup {PM("log10", <<IPow(10, k)>>, k) : k \in 0..3}
   \cup {PM("fmod", <<a, b>>, a % b) : a \in {7, 9, 11}, b \in {2, 4, 5}}
+  \cup {PM("fmod", <<0 - a, b>>, 0 - (a % b)) : a \in {7, 9, 11}, b \in {2, 4, 5}}     \* C fmod: the result has the sign of the dividend
+  \cup {PM("fmod", <<a, 0 - b>>, a % b) : a \in {7, 9}, b \in {2, 4}}
+  \cup {PM("pow", <<0 - b, k>>, IF k % 2 = 0 THEN IPow(b, k) ELSE 0 - IPow(b, k)) : b \in {2, 3}, k \in 0..3}
+  \cup {PM("floor", <<0 - 7>>, 0 - 7), PM("ceil", <<0 - 7>>, 0 - 7), PM("fabs", <<7>>, 7)}
   \cup {PM("hypot", <<3 * k, 4 * k>>, 5 * k) : k \in 1..3}
   \cup {PM("ldexp", <<a, k>>, a * IPow(2, k)) : a \in {1, 3}, k \in 0..3}
   \cup {PM("copysign", <<a, 0 - b>>, 0 - a) : a \in {2, 5}, b \in {1, 7}} \cup {PM("copysign", <<a, b>>, a) : a \in {2, 5}, b \in {1, 7}}
